@@ -79,6 +79,8 @@ def oracle(c, op, out, before, after, metrics_before):
             want_content = dict(op["items"])[key]
             if got[0] != parts[-1] or got[1] != want_content:
                 fails.append(f"add-content: add({key!r}) stored title/content {got[0]!r}/{got[1]!r}")
+            elif got[2] != "text":
+                fails.append(f"add-replaces: add({key!r}, <text>) left a {got[2]} section in place: what select returns is not what was last added")
             # new ancestors have empty content, existing ones are kept
             for i in range(1, len(parts)):
                 anc = parts[:i]
